@@ -91,57 +91,12 @@ def run(run_, ctx):
     run_.floor("D", 2)
     F = ctx.facts("A")
     pc = F.crate("postcard")
-    # semantic: payload flow in try_push, independent of the expectation file
-    f = [x for x in glue.fns_of_group(pc, "ser_cobs") if x.name == "try_push"]
-    if len(f) != 1:
-        run_.bad("EX", "Cobs::try_push", "not found")
-    else:
-        f = f[0]
-        eng = sym.Engine(F, max_visits=2)
-        arms = {}
-        probs = []
-        for p in eng.run(f):
-            if p.status != "return":
-                probs.append("a path ends in %s" % p.status)
-                continue
-            evs = tbl.residual_calls(p)
-            st = [e for e in evs if e["key"] == "cobs::EncoderState::push"]
-            if len(st) != 1 or evs[0] is not st[0]:
-                probs.append("the encoder state is not consulted first")
-                continue
-            r = st[0]["result"]
-            tag = p.tagfacts.get(("tag", r))
-            pushes = [norm(e["args"][1]) for e in evs if e["key"] == tbl.SER_PUSH]
-            idx = [e for e in evs if e["key"].endswith("IndexMut::index_mut")]
-            writes = [e for e in p.events if e["k"] == "write"]
-
-            def pay(variant, *path):
-                t = ("pay", norm(r), variant, "0")
-                for x in path:
-                    t = ("getf", t, x)
-                return t
-            if tag == 0:
-                okp = pushes == [pay("AddSingle")] and not idx
-                arms["AddSingle"] = okp
-            elif tag == 1:
-                okp = (len(idx) == 1 and norm(idx[0]["args"][1]) == pay("ModifyFromStartAndSkip", "0")
-                       and len(writes) == 1 and norm(writes[0]["val"]) == pay("ModifyFromStartAndSkip", "1")
-                       and pushes == [sym.C(0, "u8")])
-                arms["ModifyFromStartAndSkip"] = okp
-            elif tag == 2:
-                full = p.ret == [e for e in evs if e["key"] == tbl.SER_PUSH][-1]["result"] and len(pushes) == 2
-                if full:
-                    okp = (len(idx) == 1 and norm(idx[0]["args"][1]) == pay("ModifyFromStartAndPushAndSkip", "0")
-                           and len(writes) == 1 and norm(writes[0]["val"]) == pay("ModifyFromStartAndPushAndSkip", "1")
-                           and pushes == [pay("ModifyFromStartAndPushAndSkip", "2"), sym.C(0, "u8")])
-                    arms["ModifyFromStartAndPushAndSkip"] = okp
-            else:
-                probs.append("a path does not dispatch on the PushResult variant")
-        for a in ("AddSingle", "ModifyFromStartAndSkip", "ModifyFromStartAndPushAndSkip"):
-            if arms.get(a) is not True:
-                probs.append("arm %s does not follow the cobs contract (index/modify value/pushed bytes and their order)" % a)
-        run_.check(not probs, "EX", "Cobs::try_push payload flow", probs[0] if probs else "all three PushResult arms follow the contract", f.where(), found=probs)
-    run_.floor("EX", 1)
+    # semantic: payload flow of the encoder flavor against the hand-written reading of the cobs contract (rules/handspec.py)
+    import handspec
+    handspec.check(run_, "EX", F, pc, [k for k in handspec.HAND if k.startswith("<ser::flavors::Cobs<B>")],
+                   "every byte goes through the encoder state; its answer alone decides what is patched and pushed, in that order",
+                   renames=glue.renames(F, pc, glue.load2("A")))
+    run_.floor("EX", 3)
     # semantic: remainder offset identity in take_from_bytes_cobs, read off the function's semantic summary (canonical slices:
     # however the two halves are split, the returned remainder is printed as arg1[lo..len(arg1)] with lo in linear normal form)
     f = [x for x in pc.fns if x.def_ == "de::take_from_bytes_cobs"]
